@@ -151,6 +151,20 @@ hyps = [('h-leftover', dict(batches=2, merges=0, files=('a',), tt=False, models=
         ('h-panic-tt', dict(batches=2, merges=0, files=('a',), tt=True, models=('powerloss',), fixes='{"clean-root-tmp"}', invs=['OpensWithoutError'], props=[]), 1)]
 
 
+def coverage_of(out):
+    """per-action distinct-state counts from `-coverage` (TLC prints sub-actions of Next with their location only)"""
+    spec_lines = open('/verif/spec/TSTableCrash.tla').read().split('\n')
+    names = ['Write', 'StartFlush', 'StartMerge', 'SysStep', 'PwStep', 'Handoff', 'RmStep', 'Crash']
+    cov = {}
+    for m in re.finditer(r'^<(\w+) line \d+, col \d+ to line \d+, col \d+ of module TSTableCrash(?: \((\d+) \d+ \d+ \d+\))?>: (\d+):(\d+)', out, flags=re.M):
+        name = m.group(1)
+        if name == 'Next' and m.group(2):
+            line = spec_lines[int(m.group(2)) - 1]
+            name = next((n for n in names if n + '(' in line or line.strip().endswith(n)), 'Next')
+        cov[name] = cov.get(name, 0) + int(m.group(3))
+    return cov
+
+
 def run_tlc(item):
     tag, kw, workers = item
     return tag, kw, tlc.run('TSTableCrash.tla', 'mc.cfg', tag='c04' + tag, files={'mc.cfg': mc_cfg(**kw)}, workers=workers,
@@ -172,7 +186,7 @@ for tag, kw, r in tl:
         transitions += r.generated
         design_runs[tag] = dict(constants={k: (list(v) if isinstance(v, tuple) else v) for k, v in kw.items()}, distinct=r.distinct,
                                 generated=r.generated, depth=r.depth, wall_s=round(r.wall, 1))
-        for a, n in r.coverage.items():
+        for a, n in coverage_of(r.output).items():
             action_cov[a] = action_cov.get(a, 0) + n
         c.log('TLC %s %s: %d distinct states, %d transitions, depth %d, all invariants and action properties hold (%.0fs)' % (
             tag, json.dumps(kw), r.distinct, r.generated, r.depth, r.wall))
